@@ -68,77 +68,77 @@ func init() {
 		},
 	})
 	def("C02", &propertyDef{
-		Decides:    "(1) the seven first-match rule tables have pairwise non-overlapping patterns (A1); (2) no range over a map in code reachable from load / render has an order-sensitive effect that is not sorted, keyed by the iteration key, owned by the iteration value or an error-only exit (ORD); (3) no package-level variable is written after init (GLOB); (4) the raw trees stay trees: no loop stores one loop-invariant map/slice under several keys (TREE), which is what the `disjoint per key` argument of ORD and the in-place mergers rely on; (5) the memoised result of an extends chain is never merged into: the base handed to ExtendService is a fresh deep clone, so the outcome does not depend on which service of the file is visited first (EXT-1); (6) a load does not write its inputs, so an earlier load cannot change a later one: no write to the caller's ConfigDetails.Environment, and a pre-parsed ConfigFile.Config only enters the in-place pipeline through a conversion that returns a new tree (INPUTS; one open finding). A lookup-miss-store memo table remembers only values that depend on nothing but their key (MEMO).",
+		Decides:    "(1) the seven first-match rule tables have pairwise non-overlapping patterns (A1); (2) no range over a map in code reachable from load / render has an order-sensitive effect that is not sorted, keyed by the iteration key, owned by the iteration value or an error-only exit (ORD); (3) no package-level variable is written after init (GLOB); (4) the raw trees stay trees: no loop stores one loop-invariant map/slice under several keys (TREE), which is what the `disjoint per key` argument of ORD and the in-place mergers rely on; (5) the memoised result of an extends chain is never merged into: the base handed to ExtendService is a fresh deep clone, so the outcome does not depend on which service of the file is visited first (EXT-1); (6) a load does not write its inputs, so an earlier load cannot change a later one: no write to the caller's ConfigDetails.Environment, and a pre-parsed ConfigFile.Config only enters the in-place pipeline through a conversion that returns a new tree (INPUTS; one open finding). A lookup-miss-store memo table remembers only values that depend on nothing but their key (MEMO). No range over a map anywhere in the module is left through a `break` while the iterations that go on have effects: which entries would be processed would depend on the iteration order (MAPALL; none of the 117 ranges has a break today). A package-level variable written under a mutex is read under the same mutex (GLOB-read).",
 		NotDecided: "determinism of dependencies (yaml/json encoders sorting keys is trusted); OS and file-system nondeterminism; the order in which listeners / visitors are called; which error message is returned when several entries are invalid.",
-		Rules:      []string{"A1", "ORD", "GLOB", "TREE", "EXT-1", "INPUTS", "MEMO"},
+		Rules:      []string{"A1", "ORD", "GLOB", "TREE", "EXT-1", "INPUTS", "MEMO", "MAPALL"},
 		Run: func(c *rules.Ctx) []report.Obligation {
-			return cat(c.MEMO("MEMO"), c.A1("A1", allTables...), c.ORD("ORD", "LOAD", "RENDER"), c.GLOB("GLOB"), c.TREE("TREE", "LOAD"), rules.OnlyRule(c.EXT("EXT"), "EXT-1"), c.INPUTS("INPUTS"))
+			return cat(c.MAPALL("MAPALL"), c.MEMO("MEMO"), c.A1("A1", allTables...), c.ORD("ORD", "LOAD", "RENDER"), c.GLOB("GLOB"), c.TREE("TREE", "LOAD"), rules.OnlyRule(c.EXT("EXT"), "EXT-1"), c.INPUTS("INPUTS"))
 		},
 	})
 	def("C03", &propertyDef{
-		Decides:    "form coverage: for every attribute path of schema/compose-spec.json and every YAML kind the schema admits there, the code that consumes it has an arm for that kind: the canonical transformer registered for the path, else the custom decoder of the model type, else the plain Go kind under strict mapstructure + the repo's cast hook (A3); every schema attribute has a model field (A7); every transformer row denotes a schema path (A2); the bind-vs-volume decision of the volume short syntax is controlled by conditions computed from the source only (CLASSIFY); when several scalar spellings of one short form are accepted (a number and a string) they are all handed to the same parser of package types / format (SIBARM); command strings are split by shellwords.Parse only (SHELLSPLIT); a key is resolved from the environment only when it has no value at all (bare `KEY`, null), decided by nil / separator-absence / type tests and never by an emptiness test, so `KEY=` stays explicitly empty (INHERIT); a short list converted to its mapping form gives every name its own attribute map, never one object under several keys (TREE, packages override and transform). KEY=VALUE strings are cut at the first `=` only (KVSPLIT). Which transformer / decoder handles a value is decided by matching its whole path, never by its last segment alone, so a resource that is named like an attribute (`dns`, `ssh`, `build`) still gets the handler of its position (PATHLAST).",
+		Decides:    "form coverage: for every attribute path of schema/compose-spec.json and every YAML kind the schema admits there, the code that consumes it has an arm for that kind: the canonical transformer registered for the path, else the custom decoder of the model type, else the plain Go kind under strict mapstructure + the repo's cast hook (A3); every schema attribute has a model field (A7); every transformer row denotes a schema path (A2); the bind-vs-volume decision of the volume short syntax is controlled by conditions computed from the source only (CLASSIFY); when several scalar spellings of one short form are accepted (a number and a string) they are all handed to the same parser of package types / format (SIBARM); command strings are split by shellwords.Parse only (SHELLSPLIT); a key is resolved from the environment only when it has no value at all (bare `KEY`, null), decided by nil / separator-absence / type tests and never by an emptiness test, so `KEY=` stays explicitly empty (INHERIT); a short list converted to its mapping form gives every name its own attribute map, never one object under several keys (TREE, packages override and transform). KEY=VALUE strings are cut at the first `=` only (KVSPLIT). Which transformer / decoder handles a value is decided by matching its whole path, never by its last segment alone, so a resource that is named like an attribute (`dns`, `ssh`, `build`) still gets the handler of its position (PATHLAST). Where the duplicate-removal key of a short form is one of its separator-delimited segments, it is made of the very segments the canonical transformer stores under the attribute the key of the long form reads, so both spellings of one entry get one key (IDXKEY: services.*.devices; segment algebra over strings.Split / strings.Cut).",
 		NotDecided: "that two spellings produce equal values: port-range pairing, what counts as a path in the bind-vs-volume classification, KEY=VALUE splitting, durations, byte sizes and shell-word splitting are value-level grammars; rejection of near-miss strings.",
-		Rules:      []string{"A3", "A7", "A2", "CLASSIFY", "SIBARM", "INHERIT", "SHELLSPLIT", "TREE", "KVSPLIT", "PATHLAST"},
+		Rules:      []string{"A3", "A7", "A2", "CLASSIFY", "SIBARM", "INHERIT", "SHELLSPLIT", "TREE", "KVSPLIT", "PATHLAST", "IDXKEY"},
 		Run: func(c *rules.Ctx) []report.Obligation {
-			return cat(c.PATHLAST("PATHLAST"), c.KVSPLIT("KVSPLIT"), rules.Only(c.TREE("TREE", "LOAD"), "override.", "transform.", "inventory"), c.SHELLSPLIT("SHELLSPLIT"), c.INHERIT("INHERIT"), c.A3("A3"), c.A7("A7"), c.A2("A2", rules.TTransform), c.CLASSIFY("CLASSIFY"), c.SIBARM("SIBARM", "transform", "types"))
+			return cat(c.IDXKEY("IDXKEY"), c.PATHLAST("PATHLAST"), c.KVSPLIT("KVSPLIT"), rules.Only(c.TREE("TREE", "LOAD"), "override.", "transform.", "inventory"), c.SHELLSPLIT("SHELLSPLIT"), c.INHERIT("INHERIT"), c.A3("A3"), c.A7("A7"), c.A2("A2", rules.TTransform), c.CLASSIFY("CLASSIFY"), c.SIBARM("SIBARM", "transform", "types"))
 		},
 	})
 	def("C04", &propertyDef{
-		Decides:    "merge coverage (A4): every attribute below services/networks/volumes/secrets/configs that the schema lets be spelled as list-or-mapping or string-or-list has a converting merger; every uniqueItems list is de-duplicated after the append (unicity indexer, mapping-producing or replacing merger), the de-duplication keeping, per key, the position of its first occurrence in the output list (position-map idiom, proved by PANIC-IDX over package override); command, entrypoint and healthcheck.test are bound to the replacing merger; each indexer has an arm for every item kind, and builds its key with verbs that print every admissible YAML type of a field alike (FMTVERB); mergeLogging consults the presence of `driver` on both sides before replacing instead of merging (LOGMERGE). The two tables are exclusive and have no dead rows (A1, A2). Stage order Apply(!reset) < Merge < EnforceUnicity < validate < Canonical < EnforceUnicity holds on every path and each stage's error is propagated (PIPE); every YAML document of a file runs through the pipeline (MULTIDOC). A float of the document is turned into the text of a KEY=VALUE entry the way fmt does it, in the mergers as in the decoders (FMTFLOAT). A merger that walks the entries of its base list appends each of them (or what it builds from it) on every iteration: entries no override matches survive (MERGEKEEP). An indexer made by a factory never joins an empty default directory with path.Join, which would drop the leading slash from the key of one spelling only (KEYABS).",
+		Decides:    "merge coverage (A4): every attribute below services/networks/volumes/secrets/configs that the schema lets be spelled as list-or-mapping or string-or-list has a converting merger; every uniqueItems list is de-duplicated after the append (unicity indexer, mapping-producing or replacing merger), the de-duplication keeping, per key, the position of its first occurrence in the output list (position-map idiom, proved by PANIC-IDX over package override); command, entrypoint and healthcheck.test are bound to the replacing merger; each indexer has an arm for every item kind, and builds its key with verbs that print every admissible YAML type of a field alike (FMTVERB); mergeLogging consults the presence of `driver` on both sides before replacing instead of merging (LOGMERGE). The two tables are exclusive and have no dead rows (A1, A2). Stage order Apply(!reset) < Merge < EnforceUnicity < validate < Canonical < EnforceUnicity holds on every path and each stage's error is propagated (PIPE); every YAML document of a file runs through the pipeline (MULTIDOC). A float of the document is turned into the text of a KEY=VALUE entry the way fmt does it, in the mergers as in the decoders (FMTFLOAT). A merger that walks the entries of its base list appends each of them (or what it builds from it) on every iteration: entries no override matches survive (MERGEKEEP). An indexer made by a factory never joins an empty default directory with path.Join, which would drop the leading slash from the key of one spelling only (KEYABS). Every entry of a mapping is examined for a recorded `!reset`/`!override` path and every key of an override is merged: no range over a map in the reset processor or package override is left through a `break` while other iterations have effects (MAPALL).",
 		NotDecided: "the merged values themselves; `!reset` inside sequences; that what a later file does not mention is preserved.",
-		Rules:      []string{"A4", "PANIC-IDX", "FMTVERB", "A1", "A2", "PIPE", "MULTIDOC", "TREEPATH", "TREE", "LOGMERGE", "FMTFLOAT", "MERGEKEEP", "KEYABS"},
+		Rules:      []string{"A4", "PANIC-IDX", "FMTVERB", "A1", "A2", "PIPE", "MULTIDOC", "TREEPATH", "TREE", "LOGMERGE", "FMTFLOAT", "MERGEKEEP", "KEYABS", "MAPALL"},
 		Run: func(c *rules.Ctx) []report.Obligation {
-			return cat(c.KEYABS("KEYABS"), c.MERGEKEEP("MERGEKEEP"), c.FMTFLOAT("FMTFLOAT"), c.LOGMERGE("LOGMERGE"), c.A4("A4"), rules.Only(c.PanicIDX("PANIC-IDX", "LOAD"), "override."), c.FMTVERB("FMTVERB", "override"), c.TREEPATH("TREEPATH"), c.TREE("TREE", "LOAD"), c.A1("A1", rules.TMerge, rules.TUnique), c.A2("A2", rules.TMerge, rules.TUnique),
+			return cat(rules.Only(c.MAPALL("MAPALL"), "loader.(*ResetProcessor)", "override.", "inventory"), c.KEYABS("KEYABS"), c.MERGEKEEP("MERGEKEEP"), c.FMTFLOAT("FMTFLOAT"), c.LOGMERGE("LOGMERGE"), c.A4("A4"), rules.Only(c.PanicIDX("PANIC-IDX", "LOAD"), "override."), c.FMTVERB("FMTVERB", "override"), c.TREEPATH("TREEPATH"), c.TREE("TREE", "LOAD"), c.A1("A1", rules.TMerge, rules.TUnique), c.A2("A2", rules.TMerge, rules.TUnique),
 				c.PIPE("PIPE", stageIn("Apply", "override.Merge", "override.EnforceUnicity", "schema.Validate", "transform.Canonical", "loader.OmitEmpty")), c.MULTIDOC("MULTIDOC"))
 		},
 	})
 	def("C05", &propertyDef{
-		Decides:    "in the function that calls override.ExtendService: the base is a fresh deep clone (ownership analysis of deepClone), every return of the merged service is dominated by delete(merged,\"extends\") and by the memoising store, missing bases have error returns, the other file is loaded with ResolvePaths=false and resolved once against loader.Dir(refPath) on every success path, ApplyExtends stores the result for every service (EXT); the recursion is guarded by a successful cycleTracker.Add (CYC); the mergers that ExtendService runs never store one map or slice under several keys, so refining one inherited entry cannot change its siblings (TREE, package override). Whether the file named by `extends.file` is loaded depends on presence, type, nil and error tests only (EXT-7). The post-processors of the chain accumulate: the list applied to the base and handed down is the received list extended with append (EXT-8).",
+		Decides:    "in the function that calls override.ExtendService: the base is a fresh deep clone (ownership analysis of deepClone), every return of the merged service is dominated by delete(merged,\"extends\") and by the memoising store, missing bases have error returns, the other file is loaded with ResolvePaths=false and resolved once against loader.Dir(refPath) on every success path, ApplyExtends stores the result for every service (EXT); the recursion is guarded by a successful cycleTracker.Add (CYC); the mergers that ExtendService runs never store one map or slice under several keys, so refining one inherited entry cannot change its siblings (TREE, package override). Whether the file named by `extends.file` is loaded depends on presence, type, nil and error tests only (EXT-7). The post-processors of the chain accumulate: the list applied to the base and handed down is the received list extended with append (EXT-8). The base file of an `extends` is loaded under the switches the caller set: the copy of Options handed to the nested load takes every field from the field of the same name (CLONE). The directory an extended file's relative paths are anchored to comes from ResourceLoader.Dir, whose every return is computed from filepath.Dir of the path or from a path that passed an is-a-directory test (LOADERDIR).",
 		NotDecided: "that the result equals base-then-local by the override rules (merge values); per-attribute path anchoring.",
-		Rules:      []string{"EXT", "CYC", "TREEPATH", "TREE", "EXT-7", "EXT-8"},
+		Rules:      []string{"EXT", "CYC", "TREEPATH", "TREE", "EXT-7", "EXT-8", "CLONE", "LOADERDIR"},
 		Run: func(c *rules.Ctx) []report.Obligation {
-			return cat(rules.Only(c.TREE("TREE", "LOAD"), "override.", "loader.", "inventory"), c.EXT("EXT"), rules.Only(c.CYC("CYC"), "extends ::"), c.TREEPATH("TREEPATH"))
+			return cat(c.LOADERDIR("LOADERDIR"), c.CLONE("CLONE"), rules.Only(c.TREE("TREE", "LOAD"), "override.", "loader.", "inventory"), c.EXT("EXT"), rules.Only(c.CYC("CYC"), "extends ::"), c.TREEPATH("TREEPATH"))
 		},
 	})
 	def("C06", &propertyDef{
-		Decides:    "import stores a resource only when absent, differing redefinitions return an error (INC-1); the default `.env` of an included project is the one of its project directory (INCENV); every field of loader.Options is copied, from the field of the same name, by (*Options).clone, so a nested load (include, extends) runs under the switches the caller set (CLONE); every entry of an include section is loaded: no iteration over the entries reaches the next without the nested load (REFS); the resource kinds imported / named / rendered equal the resource maps of types.Project (A10); the include chain is compared, extended and handed to the nested load (CYC); the nested load works on cloned options with ResolvePaths, SkipNormalization and SkipConsistencyCheck forced, its environment is Clone(parent).Merge(env file) (INC-4); `include` is deleted and the nested model imported on every success path (INC-5); included env_file errors are propagated (ERR); a secret / config attribute is filled from the environment only on the ok edge of the lookup, so the second pass over an imported model (parent environment only) cannot blank what the included project's own environment resolved (ENVPRES). A relative env_file / project_directory of an include entry is anchored at the directory of the local resource loader, not at the (below the first level: relative) workingDir parameter alone (INC-6). Environment-sourced attributes are resolved by every (nested) model load, in loadYamlModel, where the included project's own environment is in force (PIPE: the ResolveEnvironment stage).",
+		Decides:    "import stores a resource only when absent, differing redefinitions return an error (INC-1); the default `.env` of an included project is the one of its project directory (INCENV); every field of loader.Options is copied, from the field of the same name, by (*Options).clone, so a nested load (include, extends) runs under the switches the caller set (CLONE); every entry of an include section is loaded: no iteration over the entries reaches the next without the nested load (REFS); the resource kinds imported / named / rendered equal the resource maps of types.Project (A10); the include chain is compared, extended and handed to the nested load (CYC); the nested load works on cloned options with ResolvePaths, SkipNormalization and SkipConsistencyCheck forced, its environment is Clone(parent).Merge(env file) (INC-4); `include` is deleted and the nested model imported on every success path (INC-5); included env_file errors are propagated (ERR); a secret / config attribute is filled from the environment only on the ok edge of the lookup, so the second pass over an imported model (parent environment only) cannot blank what the included project's own environment resolved (ENVPRES). A relative env_file / project_directory of an include entry is anchored at the directory of the local resource loader, not at the (below the first level: relative) workingDir parameter alone (INC-6). Environment-sourced attributes are resolved by every (nested) model load, in loadYamlModel, where the included project's own environment is in force (PIPE: the ResolveEnvironment stage). The directory a resource loader names for an included file (the working directory of the nested load) is computed from filepath.Dir of the path, or is the path where an is-a-directory test of it succeeded: no return of a Dir implementation hands the argument back as given (LOADERDIR).",
 		NotDecided: "equivalence with the pasted model; directory anchoring values.",
-		Rules:      []string{"INC", "A10", "CYC", "ERR", "REFS", "CLONE", "INCENV", "ENVPRES", "PIPE"},
+		Rules:      []string{"INC", "A10", "CYC", "ERR", "REFS", "CLONE", "INCENV", "ENVPRES", "PIPE", "LOADERDIR"},
 		Run: func(c *rules.Ctx) []report.Obligation {
-			return cat(c.PIPE("PIPE", stageIn("loader.ResolveEnvironment")), c.ENVPRES("ENVPRES"), c.INCENV("INCENV"), c.CLONE("CLONE"), c.INC("INC"), c.A10("A10"), rules.Only(c.CYC("CYC"), "include ::"), rules.Only(c.ERR("ERR", "LOAD"), "loader.ApplyInclude ::"), rules.Only(c.REFS("REFS", "loader"), "loader.ApplyInclude ::"),
+			return cat(c.LOADERDIR("LOADERDIR"), c.PIPE("PIPE", stageIn("loader.ResolveEnvironment")), c.ENVPRES("ENVPRES"), c.INCENV("INCENV"), c.CLONE("CLONE"), c.INC("INC"), c.A10("A10"), rules.Only(c.CYC("CYC"), "include ::"), rules.Only(c.ERR("ERR", "LOAD"), "loader.ApplyInclude ::"), rules.Only(c.REFS("REFS", "loader"), "loader.ApplyInclude ::"),
 				c.RangeGuard("INC-4", "types.(Mapping).Merge", true))
 		},
 	})
 	def("C07", &propertyDef{
-		Decides:    "the operator table, the operator class of the braced-substitution regex and the separator each bound function partitions on agree row by row (TPL-1); defaults, replacements and error messages go through Substitute (TPL-2); no value obtained from the variable mapping flows back into the template argument of Substitute*/ReplaceAllStringFunc (TPL-3); an empty name yields InvalidTemplateError (TPL-4); the brace-matching scan looks at every byte: its index advances by exactly one per iteration (TPL-7); index/slice/assertion safety in packages template and interpolation (PANIC-IDX, PANIC-TA); Substitute keeps no state: no package-level variable of template / interpolation is written after init, directly or through a copy of its slice header, map or pointer (GLOB). A memo of variable lookups in packages template / interpolation hands out what it stored, not the fact that it stored something (MEMO).",
+		Decides:    "the operator table, the operator class of the braced-substitution regex and the separator each bound function partitions on agree row by row (TPL-1); defaults, replacements and error messages go through Substitute (TPL-2); no value obtained from the variable mapping flows back into the template argument of Substitute*/ReplaceAllStringFunc (TPL-3); an empty name yields InvalidTemplateError (TPL-4); the brace-matching scan looks at every byte: its index advances by exactly one per iteration (TPL-7); index/slice/assertion safety in packages template and interpolation (PANIC-IDX, PANIC-TA); Substitute keeps no state: no package-level variable of template / interpolation is written after init, directly or through a copy of its slice header, map or pointer (GLOB). A memo of variable lookups in packages template / interpolation hands out what it stored, not the fact that it stored something (MEMO). The replacement callback, which the regexp engine calls once per match, saves its failure only while none is saved: the error returned is that of the first failing substitution, so it carries the variable and message the reader meets first (FIRSTERR).",
 		NotDecided: "the semantics of each operator (set/unset/empty tables), brace matching, first-operator-wins, verbatim copying of literal text: value-level. This is the narrowest claim of the set.",
-		Rules:      []string{"TPL", "PANIC-IDX", "PANIC-TA", "GLOB", "MEMO"},
+		Rules:      []string{"TPL", "PANIC-IDX", "PANIC-TA", "GLOB", "MEMO", "FIRSTERR"},
 		Run: func(c *rules.Ctx) []report.Obligation {
-			return cat(rules.Only(c.MEMO("MEMO"), "template.", "interpolation.", "inventory"), c.BRACESCAN("TPL-7"), c.TPL("TPL"), c.PanicIDX("PANIC-IDX", "TEMPLATE"), c.PanicTA("PANIC-TA", "TEMPLATE"), rules.Only(c.GLOB("GLOB"), "template.", "interpolation.", "inventory"))
+			return cat(c.FIRSTERR("FIRSTERR", "template.", "interpolation."), rules.Only(c.MEMO("MEMO"), "template.", "interpolation.", "inventory"), c.BRACESCAN("TPL-7"), c.TPL("TPL"), c.PanicIDX("PANIC-IDX", "TEMPLATE"), c.PanicTA("PANIC-TA", "TEMPLATE"), rules.Only(c.GLOB("GLOB"), "template.", "interpolation.", "inventory"))
 		},
 	})
 	def("C08", &propertyDef{
-		Decides:    "recursiveInterpolate substitutes only in the string arm, stores mapping values under the unchanged range key and returns other scalars unchanged (INT-1); for every schema path that admits a string beside a typed scalar and whose model type is a Go scalar, a string is convertible: cast-table row of a fitting kind, decode-time hook covering the Go kind, or a decoder with a string arm, and every cast row names an existing path of a fitting kind (A5); the cast table is exclusive (A1); no substituted value re-enters substitution, so a `$` inside a value or an already interpolated default is not expanded again (TPL-3); the text-to-boolean conversion maps exactly true/y/yes/on to true and false/n/no/off to false, through constant results (BOOLTAB); every field of loader.Options is copied, from the field of the same name, by (*Options).clone, so a nested load (include, extends) runs under the switches the caller set (CLONE).",
+		Decides:    "recursiveInterpolate substitutes only in the string arm, stores mapping values under the unchanged range key and returns other scalars unchanged (INT-1); for every schema path that admits a string beside a typed scalar and whose model type is a Go scalar, a string is convertible: cast-table row of a fitting kind, decode-time hook covering the Go kind, or a decoder with a string arm, and every cast row names an existing path of a fitting kind (A5); the cast table is exclusive (A1); no substituted value re-enters substitution, so a `$` inside a value or an already interpolated default is not expanded again (TPL-3); the text-to-boolean conversion maps exactly true/y/yes/on to true and false/n/no/off to false, through constant results (BOOLTAB); every field of loader.Options is copied, from the field of the same name, by (*Options).clone, so a nested load (include, extends) runs under the switches the caller set (CLONE). Every strconv.ParseInt / ParseUint / ParseFloat asks for a size at least as wide as the type its result is used as (the int64 / float64 itself, or the target of the conversion applied first): a typed value supplied as text is not rejected where the literal fits (PARSEWIDTH).",
 		NotDecided: "`$$` escaping equivalence; that both mechanisms convert a text to the same value; error text naming the path.",
-		Rules:      []string{"INT-1", "A5", "A1", "TPL-3", "TREEPATH", "CLONE", "BOOLTAB"},
+		Rules:      []string{"INT-1", "A5", "A1", "TPL-3", "TREEPATH", "CLONE", "BOOLTAB", "PARSEWIDTH"},
 		Run: func(c *rules.Ctx) []report.Obligation {
-			return cat(c.BOOLTAB("BOOLTAB"), c.CLONE("CLONE"), c.INT1("INT-1"), c.A5("A5"), c.A1("A1", rules.TCast), rules.OnlyRule(c.TPL("TPL"), "TPL-3"), c.TREEPATH("TREEPATH"))
+			return cat(c.PARSEWIDTH("PARSEWIDTH"), c.BOOLTAB("BOOLTAB"), c.CLONE("CLONE"), c.INT1("INT-1"), c.A5("A5"), c.A1("A1", rules.TCast), rules.OnlyRule(c.TPL("TPL"), "TPL-3"), c.TREEPATH("TREEPATH"))
 		},
 	})
 	def("C09", &propertyDef{
-		Decides:    "every model field has equal yaml and json keys (or json \"-\"); a type has both or neither of MarshalYAML/MarshalJSON; the kind a custom MarshalYAML emits is admitted by the schema where the type is used (A6); every schema attribute has a model field (A7); Project.MarshalJSON enumerates the resource kinds of the struct (A10); renderers and the parsers that read them back agree on their literal separators and host lists are sorted (CODEC); rendering leaves the project untouched: MarshalYAML / MarshalJSON and what they call write nothing reachable from the receiver, so a second rendering starts from the same project (IMM-I1); decoders of signed integer model types do not parse with an unsigned parser (NUMSIGN); no renderer chooses a spelling by the sign of an integer field (SIGNCMP); a key is resolved from the environment only when it has no value at all (bare `KEY`, null), decided by nil / separator-absence / type tests and never by an emptiness test, so `KEY=` stays explicitly empty (INHERIT), which is what keeps an explicitly empty value of a rendering from inheriting on reload. An attribute that has a documented default and takes part in the key under which a unique list is de-duplicated enters that key with the default when it is absent, so the first load and the reload (where defaults are spelled out) de-duplicate alike (KEYDFLT). The renderers of package types keep no package-level state (no pooled buffer, no cache): the bytes of one rendering cannot be overwritten by the next (GLOB, package types). A constant default is only given to fields whose zero value a user cannot mean or which are rendered even when zero (OMITDFLT), so a project with an explicit false / 0 re-renders and reloads unchanged.",
+		Decides:    "every model field has equal yaml and json keys (or json \"-\"); a type has both or neither of MarshalYAML/MarshalJSON; the kind a custom MarshalYAML emits is admitted by the schema where the type is used (A6); every schema attribute has a model field (A7); Project.MarshalJSON enumerates the resource kinds of the struct (A10); renderers and the parsers that read them back agree on their literal separators and host lists are sorted (CODEC); rendering leaves the project untouched: MarshalYAML / MarshalJSON and what they call write nothing reachable from the receiver, so a second rendering starts from the same project (IMM-I1); decoders of signed integer model types do not parse with an unsigned parser (NUMSIGN); no renderer chooses a spelling by the sign of an integer field (SIGNCMP); a key is resolved from the environment only when it has no value at all (bare `KEY`, null), decided by nil / separator-absence / type tests and never by an emptiness test, so `KEY=` stays explicitly empty (INHERIT), which is what keeps an explicitly empty value of a rendering from inheriting on reload. An attribute that has a documented default and takes part in the key under which a unique list is de-duplicated enters that key with the default when it is absent, so the first load and the reload (where defaults are spelled out) de-duplicate alike (KEYDFLT). The renderers of package types keep no package-level state (no pooled buffer, no cache): the bytes of one rendering cannot be overwritten by the next (GLOB, package types). A constant default is only given to fields whose zero value a user cannot mean or which are rendered even when zero (OMITDFLT), so a project with an explicit false / 0 re-renders and reloads unchanged. A hand-written rendering that copies struct fields into a map under constant keys agrees with the type it renders: the key is the name the field's tag gives it, a section guarded by `len(x.G) > 0` renders that very G, and all fields of one map are read from one object (MARSHALMAP: Project.MarshalJSON, Config.MarshalJSON, EnvFile.MarshalYAML).",
 		NotDecided: "equality of the reloaded project; byte-identity of a second rendering beyond map order and receiver immutability.",
-		Rules:      []string{"A6", "A7", "A10", "CODEC", "IMM-I1", "INHERIT", "NUMSIGN", "SIGNCMP", "KEYDFLT", "GLOB", "OMITDFLT"},
+		Rules:      []string{"A6", "A7", "A10", "CODEC", "IMM-I1", "INHERIT", "NUMSIGN", "SIGNCMP", "KEYDFLT", "GLOB", "OMITDFLT", "MARSHALMAP"},
 		Run: func(c *rules.Ctx) []report.Obligation {
-			return cat(c.OMITDFLT("OMITDFLT"), rules.Only(c.GLOB("GLOB"), "types.", "inventory"), c.KEYDFLT("KEYDFLT"), c.SIGNCMP("SIGNCMP"), c.NUMSIGN("NUMSIGN"), c.INHERIT("INHERIT"), c.A6("A6"), c.A7("A7"), c.A10("A10"), c.CODEC("CODEC"), c.IMMRender("IMM"))
+			return cat(c.MARSHALMAP("MARSHALMAP"), c.OMITDFLT("OMITDFLT"), rules.Only(c.GLOB("GLOB"), "types.", "inventory"), c.KEYDFLT("KEYDFLT"), c.SIGNCMP("SIGNCMP"), c.NUMSIGN("NUMSIGN"), c.INHERIT("INHERIT"), c.A6("A6"), c.A7("A7"), c.A10("A10"), c.CODEC("CODEC"), c.IMMRender("IMM"))
 		},
 	})
 	def("C10", &propertyDef{
-		Decides:    "checkConsistency has an error return that depends on the model fields of each of the 20 rules of the statement (INV) and ends in graph.CheckCycle; searchCycle is guarded by path membership and errors on a hit (CYC); checkConsistency runs unless SkipConsistencyCheck and validation.Validate unless SkipValidation, errors propagated (PIPE); the switches are the caller's: loader.Options fields are written only by option setters or on an Options value the function created / cloned, never through a *Options received from the caller (GATEW); the error for several exclusive sources of a secret / config does not depend on `driver` / `external` (SRCEXCL); every field of loader.Options is copied, from the field of the same name, by (*Options).clone, so a nested load (include, extends) runs under the switches the caller set (CLONE); validation.checks rows denote schema paths and are exclusive (A1, A2). Every attribute a validation check tests as a boolean or number has an interpolation cast row at its path, so the check sees the typed value also when it was written as a variable (CHKCAST). An error of checkConsistency that is only reported when an optional section is present has a condition that reads inside that section (INV-guard): a nil guard in front of a rule that does not need it switches the rule off for models without the section. Paired settings are tested for being set with != 0, never by sign (INV-sign).",
+		Decides:    "checkConsistency has an error return that depends on the model fields of each of the 20 rules of the statement (INV) and ends in graph.CheckCycle; searchCycle is guarded by path membership and errors on a hit (CYC); checkConsistency runs unless SkipConsistencyCheck and validation.Validate unless SkipValidation, errors propagated (PIPE); the switches are the caller's: loader.Options fields are written only by option setters or on an Options value the function created / cloned, never through a *Options received from the caller (GATEW); the error for several exclusive sources of a secret / config does not depend on `driver` / `external` (SRCEXCL); every field of loader.Options is copied, from the field of the same name, by (*Options).clone, so a nested load (include, extends) runs under the switches the caller set (CLONE); validation.checks rows denote schema paths and are exclusive (A1, A2). Every attribute a validation check tests as a boolean or number has an interpolation cast row at its path, so the check sees the typed value also when it was written as a variable (CHKCAST). An error of checkConsistency that is only reported when an optional section is present has a condition that reads inside that section (INV-guard): a nil guard in front of a rule that does not need it switches the rule off for models without the section. Paired settings are tested for being set with != 0, never by sign (INV-sign). Where a consistency rule (or a helper it calls, such as GetScale) follows an optional pointer setting, the test that dominates the access is a test of that very field path: a rule that tests one setting and reads another has a dead or a wrong branch (PANIC-NIL over everything reachable from checkConsistency, scalar pointers included).",
 		NotDecided: "that each condition is the right condition (an inverted comparison survives); acceptance implies consistency for fragments arriving through override / extends / include.",
-		Rules:      []string{"INV", "CYC", "PIPE", "GATEW", "A1", "A2", "CLONE", "TREE", "EXTVAL", "SRCEXCL", "CHKCAST", "INV-guard", "INV-sign"},
+		Rules:      []string{"INV", "CYC", "PIPE", "GATEW", "A1", "A2", "CLONE", "TREE", "EXTVAL", "SRCEXCL", "CHKCAST", "INV-guard", "INV-sign", "PANIC-NIL"},
 		Run: func(c *rules.Ctx) []report.Obligation {
-			return cat(c.INVSIGN("INV-sign"), c.CHKCAST("CHKCAST"), c.SRCEXCL("SRCEXCL"), c.EXTVAL("EXTVAL"), c.TREE("TREE", "LOAD"), c.CLONE("CLONE"), c.INV("INV"), rules.Only(c.CYC("CYC"), "depends_on ::"), c.PIPE("PIPE", stageIn("loader.checkConsistency", "validation.Validate")), c.GATEW("GATEW"),
+			return cat(c.PANICNIL("PANIC-NIL", "CONSISTENCY"), c.INVSIGN("INV-sign"), c.CHKCAST("CHKCAST"), c.SRCEXCL("SRCEXCL"), c.EXTVAL("EXTVAL"), c.TREE("TREE", "LOAD"), c.CLONE("CLONE"), c.INV("INV"), rules.Only(c.CYC("CYC"), "depends_on ::"), c.PIPE("PIPE", stageIn("loader.checkConsistency", "validation.Validate")), c.GATEW("GATEW"),
 				c.A1("A1", rules.TChecks), c.A2("A2", rules.TChecks))
 		},
 	})
@@ -152,11 +152,11 @@ func init() {
 		},
 	})
 	def("C12", &propertyDef{
-		Decides:    "each path-bearing attribute named by the statement matches exactly one resolver row and no resolver sits on another attribute (A9); resolver patterns are exclusive and denote schema paths (A1, A2); each origin resolves against its own base: main files against config.WorkingDir gated by ResolvePaths, included projects against loader.Dir / project_directory (ORIGIN), extended files against loader.Dir(refPath) with the nested load not resolving (EXT-5); the base of an `extends` is a deep copy, so the in-place rewriting of a path-bearing mapping is applied once per service and never to an object two services share (EXT-1); a build context containing `://` is returned unchanged on the strength of a plain substring test (URLCTX); no branch of the resolver methods is decided by the base directory, so whether a path is rewritten depends on the path alone (PATHPURE); the home directory replaces exactly the leading `~` (TILDE); the resolvers bound to mount sources and secret / config files consult the Windows-absolute test (A9-win). No resolver of package paths decides by searching a value for a keyword as a substring (KEYWORD). Files and directories are told apart with IsDir, never with IsRegular (KINDTEST).",
+		Decides:    "each path-bearing attribute named by the statement matches exactly one resolver row and no resolver sits on another attribute (A9); resolver patterns are exclusive and denote schema paths (A1, A2); each origin resolves against its own base: main files against config.WorkingDir gated by ResolvePaths, included projects against loader.Dir / project_directory (ORIGIN), extended files against loader.Dir(refPath) with the nested load not resolving (EXT-5); the base of an `extends` is a deep copy, so the in-place rewriting of a path-bearing mapping is applied once per service and never to an object two services share (EXT-1); a build context containing `://` is returned unchanged on the strength of a plain substring test (URLCTX); no branch of the resolver methods is decided by the base directory, so whether a path is rewritten depends on the path alone (PATHPURE); the home directory replaces exactly the leading `~` (TILDE); the resolvers bound to mount sources and secret / config files consult the Windows-absolute test (A9-win). No resolver of package paths decides by searching a value for a keyword as a substring (KEYWORD). Files and directories are told apart with IsDir, never with IsRegular (KINDTEST). The develop watch path has its symbolic-link prefix replaced by the target of that very prefix: filepath.EvalSymlinks is applied to the value whose link test guards the call, not to a longer path (SYMEVAL).",
 		NotDecided: "absolute / known-remote-prefix / Windows detection, `~` expansion, idempotence: value-level string predicates.",
-		Rules:      []string{"A9", "A1", "A2", "ORIGIN", "EXT-5", "EXT-1", "PIPE", "TREEPATH", "URLCTX", "PATHPURE", "TILDE", "KEYWORD", "KINDTEST"},
+		Rules:      []string{"A9", "A1", "A2", "ORIGIN", "EXT-5", "EXT-1", "PIPE", "TREEPATH", "URLCTX", "PATHPURE", "TILDE", "KEYWORD", "KINDTEST", "SYMEVAL"},
 		Run: func(c *rules.Ctx) []report.Obligation {
-			return cat(c.KINDTEST("KINDTEST"), c.KEYWORD("KEYWORD"), c.TILDE("TILDE"), c.PATHPURE("PATHPURE"), c.A9("A9"), c.TREEPATH("TREEPATH"), c.URLCTX("URLCTX"), c.A1("A1", rules.TResolvers), c.A2("A2", rules.TResolvers), c.ORIGIN("ORIGIN"), rules.OnlyRule(c.EXT("EXT"), "EXT-5", "EXT-1"),
+			return cat(c.SYMEVAL("SYMEVAL"), c.KINDTEST("KINDTEST"), c.KEYWORD("KEYWORD"), c.TILDE("TILDE"), c.PATHPURE("PATHPURE"), c.A9("A9"), c.TREEPATH("TREEPATH"), c.URLCTX("URLCTX"), c.A1("A1", rules.TResolvers), c.A2("A2", rules.TResolvers), c.ORIGIN("ORIGIN"), rules.OnlyRule(c.EXT("EXT"), "EXT-5", "EXT-1"),
 				c.PIPE("PIPE", stageIn("paths.ResolveRelativePaths")))
 		},
 	})
@@ -178,41 +178,41 @@ func init() {
 		},
 	})
 	def("C15", &propertyDef{
-		Decides:    "WithProfiles ranges over AllServices() and stores every service on exactly one edge of HasProfile into the map assigned to Services resp. DisabledServices (PART-1); WithServicesDisabled records the service in DisabledServices before deleting it from Services, under the presence test, and deletes DependsOn[name] in all remaining services (PART-2, DEP); WithSelectedServices keeps or disables every service (PART-3); WithServicesEnabled re-partitions through WithProfiles on every path where a name was given (PART-4); the profile predicate compares every selected profile with `*` (PROFSTAR); no map range in the selection operations has an order-sensitive effect (ORD). The lookup that withServices ranges over returns the services it found on every path, so an optional dependency on a service that is not enabled does not drop its siblings (PART-FOUND).",
+		Decides:    "WithProfiles ranges over AllServices() and stores every service on exactly one edge of HasProfile into the map assigned to Services resp. DisabledServices (PART-1); WithServicesDisabled records the service in DisabledServices before deleting it from Services, under the presence test, and deletes DependsOn[name] in all remaining services (PART-2, DEP); WithSelectedServices keeps or disables every service (PART-3); WithServicesEnabled re-partitions through WithProfiles on every path where a name was given (PART-4); the profile predicate compares every selected profile with `*` (PROFSTAR); no map range in the selection operations has an order-sensitive effect (ORD). The lookup that withServices ranges over returns the services it found on every path, so an optional dependency on a service that is not enabled does not drop its siblings (PART-FOUND). Pruning looks at every place a service can reference a top-level resource: the collection fields of ServiceConfig and of the structs it holds that carry the name of a resource map of Project (Networks, Volumes, Secrets, Configs, Build.Secrets) are each ranged over by WithoutUnnecessaryResources, and the names collected from a field named R filter Project.R and nothing else (PRUNEREFS; the field list comes from the types).",
 		NotDecided: "the profile predicate, the dependency closure on arbitrary graphs, pruning exactly the referenced resources: set-valued semantics.",
-		Rules:      []string{"PART", "ORD", "PROFSTAR", "PART-FOUND"},
+		Rules:      []string{"PART", "ORD", "PROFSTAR", "PART-FOUND", "PRUNEREFS"},
 		Run: func(c *rules.Ctx) []report.Obligation {
-			return cat(c.PARTFOUND("PART-FOUND"), c.PROFSTAR("PROFSTAR"), c.PART("PART"), c.ORD("ORD", "SELECT"))
+			return cat(c.PRUNEREFS("PRUNEREFS"), c.PARTFOUND("PART-FOUND"), c.PROFSTAR("PROFSTAR"), c.PART("PART"), c.ORD("ORD", "SELECT"))
 		},
 	})
 	def("C16", &propertyDef{
-		Decides:    "OverrideBy writes unconditionally, Resolve only valueless keys (LAY-1); env/label files are applied in slice order onto a fresh accumulator and the service's own entries are the argument of the last OverrideBy, whose result is stored (LAY-2); the lookup handed to the env-file parser reads the accumulator then the project environment (LAY-3); file references are dropped only under the discard flag (LAY-4); loadEnvFile returns (nil,nil) only for a missing, not-required file (LAY-gate); a variable lookup counts as found on its boolean result alone (never on the value being non-empty) and lookup functions keep no memo (LOOKUP); a key is resolved from the environment only when it has no value at all (bare `KEY`, null), decided by nil / separator-absence / type tests and never by an emptiness test, so `KEY=` stays explicitly empty (INHERIT). The two resolution methods write nothing the receiver owns and return nothing that aliases it (IMM-I1 / I2): in particular the in-place Resolve of value-less keys runs on a copy, so a later resolution against another environment starts from the same value-less keys.",
+		Decides:    "OverrideBy writes unconditionally, Resolve only valueless keys (LAY-1); env/label files are applied in slice order onto a fresh accumulator and the service's own entries are the argument of the last OverrideBy, whose result is stored (LAY-2); the lookup handed to the env-file parser reads the accumulator then the project environment (LAY-3); file references are dropped only under the discard flag (LAY-4); loadEnvFile returns (nil,nil) only for a missing, not-required file (LAY-gate); a variable lookup counts as found on its boolean result alone (never on the value being non-empty) and lookup functions keep no memo (LOOKUP); a key is resolved from the environment only when it has no value at all (bare `KEY`, null), decided by nil / separator-absence / type tests and never by an emptiness test, so `KEY=` stays explicitly empty (INHERIT). The two resolution methods write nothing the receiver owns and return nothing that aliases it (IMM-I1 / I2): in particular the in-place Resolve of value-less keys runs on a copy, so a later resolution against another environment starts from the same value-less keys. Every service and every entry is resolved: no range over a map in the environment resolution or package types is left through a `break` while other iterations have effects (MAPALL). The default `required: true` of a long-form env_file entry is written only under a test that this very key is absent, so an explicit `required: false` is kept and a missing key means required (DFLT, transform.transformEnvFile*).",
 		NotDecided: "dotenv semantics, cross-references between layers, that discarding removes only the file references.",
-		Rules:      []string{"LAY", "LOOKUP", "INHERIT", "IMM-I1", "IMM-I2"},
+		Rules:      []string{"LAY", "LOOKUP", "INHERIT", "IMM-I1", "IMM-I2", "MAPALL", "DFLT"},
 		Run: func(c *rules.Ctx) []report.Obligation {
-			return cat(c.IMMResolve("IMM"), c.INHERIT("INHERIT"), c.LAY("LAY"), c.RangeGuard("LAY-1", "types.(MappingWithEquals).OverrideBy", false), c.RangeGuard("LAY-1", "types.(MappingWithEquals).Resolve", true),
+			return cat(rules.Containing(c.DFLT("DFLT", []string{"transform.SetDefaultValues", "transform.Canonical", "loader.Normalize"}, []string{"loader.load"}), "transformEnvFile"), rules.Only(c.MAPALL("MAPALL"), "loader.resolveServicesEnvironment", "types.", "inventory"), c.IMMResolve("IMM"), c.INHERIT("INHERIT"), c.LAY("LAY"), c.RangeGuard("LAY-1", "types.(MappingWithEquals).OverrideBy", false), c.RangeGuard("LAY-1", "types.(MappingWithEquals).Resolve", true),
 				c.LOOKUP("LOOKUP", "dotenv", "types", "loader", "cli"))
 		},
 	})
 	def("C17", &propertyDef{
-		Decides:    "name precedence in withNamePrecedenceLoad (explicit, COMPOSE_PROJECT_NAME, directory) with the right imperative flags (NAME-1); projectName validates an imperative name without consulting files, exports the name on every exit, interpolates (unless SkipInterpolation) and normalises the file name, uses it only when non-empty, last file wins (NAME-2); load rejects an empty name, WithName rejects non-normal names (NAME-3); NormalizeProjectName trims the leading `_` / `-` from the already filtered text (NAME-5); WithOsEnv and Mapping.Merge write only absent keys, WithEnv and later .env files overwrite, the .env lookup consults the current environment first (ENV). The KEY=VALUE entries of the explicit and OS layers are cut at their first `=` (Cut / SplitN 2), never split on every `=`, so a variable whose value contains `=` stays in its layer (KVSPLIT). Every configuration file is decoded when the name is looked for: no iteration over the files reaches the next one without the YAML decoder (REFS), so no textual pre-filter decides whether a file sets a name.",
+		Decides:    "name precedence in withNamePrecedenceLoad (explicit, COMPOSE_PROJECT_NAME, directory) with the right imperative flags (NAME-1); projectName validates an imperative name without consulting files, exports the name on every exit, interpolates (unless SkipInterpolation) and normalises the file name, uses it only when non-empty, last file wins (NAME-2); load rejects an empty name, WithName rejects non-normal names (NAME-3); NormalizeProjectName trims the leading `_` / `-` from the already filtered text (NAME-5); WithOsEnv and Mapping.Merge write only absent keys, WithEnv and later .env files overwrite, the .env lookup consults the current environment first (ENV). The KEY=VALUE entries of the explicit and OS layers are cut at their first `=` (Cut / SplitN 2), never split on every `=`, so a variable whose value contains `=` stays in its layer (KVSPLIT). Every configuration file is decoded when the name is looked for: no iteration over the files reaches the next one without the YAML decoder (REFS), so no textual pre-filter decides whether a file sets a name. Every OS / .env variable is considered for the project environment: no range over a map in packages cli / dotenv is left through a `break` while other iterations have effects (MAPALL).",
 		NotDecided: "the regex itself, directory-name normalisation results, the option call order chosen by the caller.",
-		Rules:      []string{"NAME", "ENV", "KVSPLIT", "REFS"},
+		Rules:      []string{"NAME", "ENV", "KVSPLIT", "REFS", "MAPALL"},
 		Run: func(c *rules.Ctx) []report.Obligation {
-			return cat(rules.Containing(c.REFS("REFS", "loader"), "yaml.v3.NewDecoder"), c.KVSPLIT("KVSPLIT"), c.NAME("NAME"), c.RangeGuard("ENV", "cli.WithOsEnv", true), c.RangeGuard("ENV", "types.(Mapping).Merge", true),
+			return cat(rules.Only(c.MAPALL("MAPALL"), "cli.", "dotenv.", "inventory"), rules.Containing(c.REFS("REFS", "loader"), "yaml.v3.NewDecoder"), c.KVSPLIT("KVSPLIT"), c.NAME("NAME"), c.RangeGuard("ENV", "cli.WithOsEnv", true), c.RangeGuard("ENV", "types.(Mapping).Merge", true),
 				c.RangeGuard("ENV", "cli.WithEnv$1", false), c.RangeGuard("ENV", "dotenv.GetEnvFromFile", false))
 		},
 	})
 	def("C18", &propertyDef{
-		Decides:    "every index and slice expression and every unchecked assertion reachable from the exported functions of package dotenv (and the part of template they reach) is in bounds for every byte string (PANIC-IDX, PANIC-TA, PANIC-EXPL); recursions and condition-less loops are inventoried (TERM); the quoted-value scan succeeds only at the matching quote and every exit after the scan carries an error, an invalid key rune is an error (ERRRET); no error of the parse scope reaches a return untested (ERRDROP); every env file named is read (REFS); a variable counts as found on the boolean result of the lookup alone and lookup functions keep no memo (LOOKUP); escape sequences are decoded in a single scan of the value as written (ESC). The blank class of the grammar (dotenv.isSpace) is the constant set TAB VT FF CR SPACE NEL NBSP, decided by comparisons with constants only (BLANKSET). Nothing rewrites the source of an env file before the quote-aware scanner sees it (SRCREWRITE).",
+		Decides:    "every index and slice expression and every unchecked assertion reachable from the exported functions of package dotenv (and the part of template they reach) is in bounds for every byte string (PANIC-IDX, PANIC-TA, PANIC-EXPL); recursions and condition-less loops are inventoried (TERM); the quoted-value scan succeeds only at the matching quote and every exit after the scan carries an error, an invalid key rune is an error (ERRRET); no error of the parse scope reaches a return untested (ERRDROP); every env file named is read (REFS); a variable counts as found on the boolean result of the lookup alone and lookup functions keep no memo (LOOKUP); escape sequences are decoded in a single scan of the value as written (ESC). The blank class of the grammar (dotenv.isSpace) is the constant set TAB VT FF CR SPACE NEL NBSP, decided by comparisons with constants only (BLANKSET). Nothing rewrites the source of an env file before the quote-aware scanner sees it (SRCREWRITE). Every blank the key scan lets through is removed from the end of the key: the class handed to strings.TrimRightFunc contains the class the scan skips, decided by interpreting both rune predicates for every rune below U+3100 (KEYTRIM).",
 		NotDecided: "that the returned map is the grammar's (quoting, escapes, inline comments, lookup precedence): needs a reference evaluator.",
-		Rules:      []string{"PANIC-IDX", "PANIC-TA", "PANIC-EXPL", "TERM", "ERRRET", "ERRDROP", "REFS", "LOOKUP", "ESC", "BLANKSET", "SRCREWRITE"},
+		Rules:      []string{"PANIC-IDX", "PANIC-TA", "PANIC-EXPL", "TERM", "ERRRET", "ERRDROP", "REFS", "LOOKUP", "ESC", "BLANKSET", "SRCREWRITE", "KEYTRIM"},
 		Run: func(c *rules.Ctx) []report.Obligation {
-			return cat(c.SRCREWRITE("SRCREWRITE"), c.BLANKSET("BLANKSET"), c.ESC("ESC"), c.PanicIDX("PANIC-IDX", "DOTENV"), c.PanicTA("PANIC-TA", "DOTENV"), c.PanicExpl("PANIC-EXPL", "DOTENV"), c.TERM("TERM", "DOTENV"), c.ERRRET("ERRRET"), c.ERRDROP("ERRDROP", "DOTENV"), c.REFS("REFS", "dotenv"), c.LOOKUP("LOOKUP", "dotenv"))
+			return cat(c.KEYTRIM("KEYTRIM"), c.SRCREWRITE("SRCREWRITE"), c.BLANKSET("BLANKSET"), c.ESC("ESC"), c.PanicIDX("PANIC-IDX", "DOTENV"), c.PanicTA("PANIC-TA", "DOTENV"), c.PanicExpl("PANIC-EXPL", "DOTENV"), c.TERM("TERM", "DOTENV"), c.ERRRET("ERRRET"), c.ERRDROP("ERRDROP", "DOTENV"), c.REFS("REFS", "dotenv"), c.LOOKUP("LOOKUP", "dotenv"))
 		},
 	})
 	def("C19", &propertyDef{
-		Decides:    "no package-level variable is written outside init (GLOB); for every function that spawns goroutines: state written by a spawned closure is not touched by the spawner between spawn and Wait nor by a sibling closure without a common mutex (R2), the owner returns Wait()'s error on every path after a spawn (R4), channels sent on from closures have len-derived capacity and one send per closure (R5); mutex-guarded fields are only accessed under the mutex, in constructors or after the join (R3); graph structures are read-only during the walk (RONLY); the structure of the dependency-ordered traversal (gating by ready then enter, visitor before done before hand-off, status values, counter, limit) as in C13 (TRV). Wherever a limit is set on an errgroup on which a collector that only receives is started, the limit counts the collector (n + 1) and the collector is started before every Wait (FAN-LIMIT).",
+		Decides:    "no package-level variable is written outside init (GLOB); for every function that spawns goroutines: state written by a spawned closure is not touched by the spawner between spawn and Wait nor by a sibling closure without a common mutex (R2), the owner returns Wait()'s error on every path after a spawn (R4), channels sent on from closures have len-derived capacity and one send per closure (R5); mutex-guarded fields are only accessed under the mutex, in constructors or after the join (R3); graph structures are read-only during the walk (RONLY); the structure of the dependency-ordered traversal (gating by ready then enter, visitor before done before hand-off, status values, counter, limit) as in C13 (TRV). Wherever a limit is set on an errgroup on which a collector that only receives is started, the limit counts the collector (n + 1) and the collector is started before every Wait (FAN-LIMIT). A package-level variable that is written while a package-level mutex is held is also read only while that mutex is held (GLOB-read: loader.versionWarning under versionWarningMu).",
 		NotDecided: "data-race freedom of dependencies (logrus, gojsonschema globals); that each load returns what it would return alone beyond the absence of shared writable state; channel happens-before is not modelled.",
 		Rules:      []string{"GLOB", "FAN", "R3", "RONLY", "PAIR", "INPUTS", "TRV", "FAN-LIMIT"},
 		Run: func(c *rules.Ctx) []report.Obligation {
@@ -221,11 +221,11 @@ func init() {
 		},
 	})
 	def("C20", &propertyDef{
-		Decides:    "each of the four secret/config marshallers blanks Content on the edge where it must not be rendered and reads the rendered copy afterwards (SEC-1); they exist with value receivers (SEC-2); marshallContent is written in one function, under the explicit option, on a deep copy (SEC-3); the decoder hook moves the carrier key to Content and deletes it (SEC-4); the renderers keep no package-level state (no pooled buffer a returned rendering could alias) (GLOB); no decision of the pipeline is keyed on the last path segment alone, which at depth two is a user-chosen resource name (PATHLAST); the loops that resolve environment-sourced secrets and configs carry nothing from one resource to the next (ORD on loader.resolve*); environment values looked up for secrets/configs are stored only under the carrier key resp. `content` (SEC-5); the project renderers do not write through the project (IMM-I1). What the loader stores under a constant key and reads back by type assertion (the `#extensions` mapping that carries an environment secret) is stored with a type the reader asserts, so the hand-over cannot fail silently (SEC-6). The loader never deletes the `environment` attribute of a resource, on which the blanking of its value by the renderers depends (SEC-7). The decode hook removes the carrier of a secret value from the extensions whenever it is there, whatever else the secret declares (SEC-8).",
+		Decides:    "each of the four secret/config marshallers blanks Content on the edge where it must not be rendered and reads the rendered copy afterwards (SEC-1); they exist with value receivers (SEC-2); marshallContent is written in one function, under the explicit option, on a deep copy (SEC-3); the decoder hook moves the carrier key to Content and deletes it (SEC-4); the renderers keep no package-level state (no pooled buffer a returned rendering could alias) (GLOB); no decision of the pipeline is keyed on the last path segment alone, which at depth two is a user-chosen resource name (PATHLAST); the loops that resolve environment-sourced secrets and configs carry nothing from one resource to the next (ORD on loader.resolve*); environment values looked up for secrets/configs are stored only under the carrier key resp. `content` (SEC-5); the project renderers do not write through the project (IMM-I1). What the loader stores under a constant key and reads back by type assertion (the `#extensions` mapping that carries an environment secret) is stored with a type the reader asserts, so the hand-over cannot fail silently (SEC-6). The loader never deletes the `environment` attribute of a resource, on which the blanking of its value by the renderers depends (SEC-7). The decode hook removes the carrier of a secret value from the extensions whenever it is there, whatever else the secret declares (SEC-8). The JSON rendering takes every section, the secrets among them, from the copy the marshal options were applied to and never from the receiver, and the secrets section is guarded by and keyed as the Secrets field (MARSHALMAP on Project.MarshalJSON).",
 		NotDecided: "non-occurrence of the value in the bytes (a second struct field, a user extension literally named x-#value, a value present elsewhere in the model); exact reproduction with WithSecretContent.",
-		Rules:      []string{"SEC", "IMM-I1", "GLOB", "ORD", "PATHLAST"},
+		Rules:      []string{"SEC", "IMM-I1", "GLOB", "ORD", "PATHLAST", "MARSHALMAP"},
 		Run: func(c *rules.Ctx) []report.Obligation {
-			return cat(c.CARRIER("SEC-8"), c.SECKEEP("SEC-7"), c.KEYTYPE("SEC-6"), c.PATHLAST("PATHLAST"), c.SEC("SEC"), c.IMMRender("IMM"), rules.Only(c.GLOB("GLOB"), "types.", "inventory"), rules.Only(c.ORD("ORD", "LOAD"), "loader.resolve"))
+			return cat(rules.Only(c.MARSHALMAP("MARSHALMAP"), "types.(*Project)."), c.CARRIER("SEC-8"), c.SECKEEP("SEC-7"), c.KEYTYPE("SEC-6"), c.PATHLAST("PATHLAST"), c.SEC("SEC"), c.IMMRender("IMM"), rules.Only(c.GLOB("GLOB"), "types.", "inventory"), rules.Only(c.ORD("ORD", "LOAD"), "loader.resolve"))
 		},
 	})
 }
